@@ -24,7 +24,7 @@ ORACLE = ('validity predicate + reference: remaining pages after fixes form a va
 ASSUMPTIONS = ['indentations are non-negative integers (column type Int, written by the client tree widget)',
                'items are given in display order with distinct ids']
 BUDGET = {'quick': dict(examples=1500, shards=8, max_seconds=60),
-          'thorough': dict(examples=40000, shards=16, max_seconds=600)}
+          'thorough': dict(examples=40000, shards=16, max_seconds=1800)}
 
 
 class Item(object):
